@@ -21,11 +21,14 @@
         trans_ctrl_is_skel      TransCtrlSeq's callback                      = one step of trans_ctrl
         type_write_is_skel / type_read_is_skel   Type.WriteTo / ReadFrom     = type_write / type_read
         wire_is_skel            Message.WriteTo / ReadFrom / TagType         = pk.NBT of the component
+        text_is_skel, json_write_is_skel, json_wire_rt   Text; JsonMessage.WriteTo / ReadFrom (pk.String of the JSON text,
+                                text layer and string codec as Section parameters)
+        every_body_interpreted  every function of the four files is a named helper or carries one of these lemmas
    What is NOT derived from the skeletons: the leaf tables (which model value a rendered expression denotes),
    the semantics of the library calls behind the leaves (package nbt, encoding/json, fmt, regexp, pk.NBT). *)
 From Coq Require Import List String Ascii NArith ZArith Bool Lia.
 From GoMC Require Import Base.Bytes Base.Dec Gen.Consts Gen.C17gen Model.C05 Model.C17_syntax Model.C17
-  Proofs.C17 Proofs.C17_expected Proofs.C17_tie.
+  Proofs.C17 Proofs.C17_rt Proofs.C17_expected Proofs.C17_tie.
 Import ListNotations.
 Local Open Scope string_scope.
 Local Open Scope list_scope.
@@ -988,6 +991,119 @@ Proof.
   - intros H. injection H as H. exact (ansi_string_nc tbl m H).
   - intros H. injection H as H. exact (clear_string_nc tbl m H).
 Qed.
+
+(* ------------------------------------------------------------------ Text *)
+Definition text_run (ss : list cstmt17) (s : str) : option msg :=
+  match ss with
+  | [CReturn [e]] => if e == "Message{Text: str}" then Some (Msg s style0 None [] [] []) else None
+  | _ => None
+  end.
+Lemma text_is_skel s : text_run (snd expected_Text) s = Some (text_msg s)
+  /\ fst expected_Text = "func Text(str string) Message".
+Proof. split; reflexivity. Qed.
+
+(* ------------------------------------------------------------------ JsonMessage.WriteTo / ReadFrom *)
+(* The JSON form on the wire: pk.String of the JSON text.  The text layer (encoding/json: text_of / parse) and the
+   string codec (pk.String.WriteTo / ReadFrom: property C06 proves the hypothesis of its model, C06_string_*; the
+   reader goes through readBytes in bounded steps since repo fix 2dcc8eb, result unchanged) are parameters. *)
+Section JsonWire.
+  Variable text_of : json -> list N.              (* json.Marshal, as text *)
+  Variable parse : list N -> option json.         (* the parser of json.Unmarshal *)
+  Variable str_write : list N -> list N.          (* pk.String(code).WriteTo *)
+  Variable str_read : list N -> option (list N * list N).    (* pk.String.ReadFrom: the string and the rest *)
+  Hypothesis parse_text : forall j, parse (text_of j) = Some j.
+  Hypothesis str_rt : forall s rest, str_read (str_write s ++ rest) = Some (s, rest).
+
+  (* code, err := json.Marshal(Message(m)); panic on an error (none: every component has a JSON text);
+     return pk.String(code).WriteTo(w) *)
+  Definition jw_run (ss : list cstmt17) (m : msg) : option (list N) :=
+    match ss with
+    | [CText mk; CIf i c [CText pn] []; CReturn [e]] =>
+        if (mk == "code, err := json.Marshal(Message(m))") && (i == "") && (c == "err != nil") && (pn == "panic(err)")
+           && (e == "pk.String(code).WriteTo(w)") then
+          match mj_run (snd expected_Message_MarshalJSON) m with
+          | Some j => Some (str_write (text_of j))
+          | None => None                            (* err != nil: the panic branch *)
+          end
+        else None
+    | _ => None
+    end.
+  (* var code pk.String; n, err := code.ReadFrom(r); return on error; json.Unmarshal of the bytes into the Message;
+     the value reaches Message.UnmarshalJSON (first-byte dispatch, json_dispatch_is_skel) *)
+  Definition jr_run (ss : list cstmt17) (s : list N) : option (msg * list N) :=
+    match ss with
+    | [CText decl; CText rd; CIf i c [CReturn [n1; e1]] []; CText un; CReturn [n2; e2]] =>
+        if (decl == "var code pk.String") && (rd == "n, err := code.ReadFrom(r)") && (i == "") && (c == "err != nil")
+           && (n1 == "n") && (e1 == "err") && (un == "err = json.Unmarshal([]byte(code), (*Message)(m))")
+           && (n2 == "n") && (e2 == "err") then
+          match str_read s with
+          | Some (code, rest) =>
+              match parse code with
+              | Some j => match of_json j with Some m => Some (m, rest) | None => None end
+              | None => None
+              end
+          | None => None
+          end
+        else None
+    | _ => None
+    end.
+  Lemma json_write_is_skel m :
+    jw_run (snd expected_JsonMessage_WriteTo) m = Some (str_write (text_of (to_json m))).
+  Proof.
+    change (jw_run (snd expected_JsonMessage_WriteTo) m)
+      with (match mj_run (snd expected_Message_MarshalJSON) m with
+            | Some j => Some (str_write (text_of j)) | None => None end).
+    rewrite marshal_json_is_skel. reflexivity.
+  Qed.
+  (* the JSON form survives the wire: JsonMessage.WriteTo then JsonMessage.ReadFrom, any following bytes untouched *)
+  Theorem json_wire_rt m rest w :
+    jw_run (snd expected_JsonMessage_WriteTo) m = Some w ->
+    jr_run (snd expected_JsonMessage_ReadFrom) (w ++ rest) = Some (norm m, rest).
+  Proof.
+    rewrite json_write_is_skel. intros E. injection E as <-.
+    change (jr_run (snd expected_JsonMessage_ReadFrom) (str_write (text_of (to_json m)) ++ rest))
+      with (match str_read (str_write (text_of (to_json m)) ++ rest) with
+            | Some (code, rest0) =>
+                match parse code with
+                | Some j => match of_json j with Some m0 => Some (m0, rest0) | None => None end
+                | None => None
+                end
+            | None => None
+            end).
+    rewrite str_rt, parse_text. unfold of_json. rewrite json_tree_rt. reflexivity.
+  Qed.
+End JsonWire.
+
+(* ------------------------------------------------------------------ every body has its interpretation *)
+Record cov : Type := { c_name : string; c_stmt : Prop; c_proof : c_stmt }.
+Definition covered : list cov :=
+  [ {| c_name := "Text"; c_stmt := _; c_proof := text_is_skel |};
+    {| c_name := "Message.ClearString"; c_stmt := _; c_proof := clear_string_is_skel |};
+    {| c_name := "Message.String"; c_stmt := _; c_proof := ansi_string_is_skel |};
+    {| c_name := "TransCtrlSeq"; c_stmt := _; c_proof := trans_ctrl_is_skel |};
+    {| c_name := "Message.ReadFrom"; c_stmt := _; c_proof := read_is_pk_nbt |};
+    {| c_name := "Message.WriteTo"; c_stmt := _; c_proof := wire_is_skel |};
+    {| c_name := "Message.TagType"; c_stmt := _; c_proof := wire_is_skel |};
+    {| c_name := "Message.MarshalNBT"; c_stmt := _; c_proof := marshal_nbt_is_skel |};
+    {| c_name := "nbtArgs"; c_stmt := _; c_proof := nbt_args_is_skel |};
+    {| c_name := "Message.UnmarshalNBT"; c_stmt := _; c_proof := nbt_dispatch_is_skel |};
+    {| c_name := "TranslateArgs.UnmarshalNBT"; c_stmt := _; c_proof := with_decode_is_skel |};
+    {| c_name := "JsonMessage.ReadFrom"; c_stmt := _; c_proof := json_wire_rt |};
+    {| c_name := "JsonMessage.WriteTo"; c_stmt := _; c_proof := json_write_is_skel |};
+    {| c_name := "Message.MarshalJSON"; c_stmt := _; c_proof := marshal_json_is_skel |};
+    {| c_name := "Message.UnmarshalJSON"; c_stmt := _; c_proof := json_dispatch_is_skel |};
+    {| c_name := "TranslateArgs.UnmarshalJSON"; c_stmt := _; c_proof := with_json_is_skel |};
+    {| c_name := "Type.ReadFrom"; c_stmt := _; c_proof := type_read_is_skel |};
+    {| c_name := "Type.WriteTo"; c_stmt := _; c_proof := type_write_is_skel |} ].
+(* functions of these files outside the property's text: builders of components, the language switch, Decorate *)
+Definition helpers : list string :=
+  ["Message.Append"; "Message.SetColor"; "TranslateMsg"; "SetLanguage"; "Type.Decorate"].
+Definition mem_str (x : string) (l : list string) : bool := existsb (String.eqb x) l.
+Theorem every_body_interpreted :
+  filter (fun n => negb (mem_str n helpers)) chat_all_funcs = map c_name covered
+  /\ forallb (fun h => mem_str h chat_all_funcs) helpers = true.
+Proof. split; reflexivity. Qed.
+Lemma all_funcs_skel_ok : chat_all_funcs = expected_all_funcs. Proof. reflexivity. Qed.
 
 (* ------------------------------------------------------------------ summary obligations *)
 Lemma all_skel_ok :
